@@ -3515,12 +3515,9 @@ fn sub_agg_encoded(c: &mut Case) -> CaseResult {
         }
     }
     // known finding: the run-end sum kernels apply the slice offset twice -> wrong sums for sliced run arrays
-    let mut slice = t.bool();
-    let mut excluded = false;
-    if ree && slice && AVOID_KNOWN && !c.strict {
-        slice = false;
-        excluded = true;
-    }
+    // (fixed: sliced run arrays are generated again)
+    let slice = t.bool();
+    let excluded = false;
     let lay = Lay { fancy: true, dict_value_nulls: false, slice_chance: if slice { 255 } else { 0 } };
     let arr = no_panic("realise", || realise(t, &ty, &col, true, &lay))?;
     if excluded {
